@@ -146,3 +146,13 @@ contract("C07.validate", file=SV_FILE, func="SpreadsheetValidator.validate",
          raises={"TypeError": "True"},
          assume=NOTE + ["the error_handler=None default (a new ErrorHandler) is not explored; isinstance(data, BaseInput) is unknown to the model "
                         "(both outcomes explored)"])
+
+# C07 "for each row ... exactly the error codes that string-level validation reports for the row": rows are judged independently of the rows
+# before them (def-before-use analysis of the real loop bodies; object state such as invalid_original_rows is not covered by it)
+IND7 = {"dataflow_only": True, "no_frame": True}
+contract("C07.rows_judged_independently", file=SV_FILE, func="SpreadsheetValidator._run_checks",
+         params={"self": "Opaque", "hed_df": "Opaque", "error_handler": "Opaque", "row_adj": "Opaque", "onset_mask": "Opaque"},
+         returns="Opaque", enc="native", ghost=dict(IND7, independent_iterations={0: ["issues"]}), ensures={})
+contract("C07.onset_rows_judged_independently", file=SV_FILE, func="SpreadsheetValidator._run_onset_checks",
+         params={"self": "Opaque", "onset_filtered": "Opaque", "error_handler": "Opaque", "row_adj": "Opaque"},
+         returns="Opaque", enc="native", ghost=dict(IND7, independent_iterations={0: ["issues"]}), ensures={})
